@@ -245,6 +245,8 @@ def run(F, rep):
             nin += 1
             rep.ob("C01-INPUT", o["instance"], o["ok"], detail=o["detail"], site=o["site"], how=o["how"], key=o["key"].replace(o["rule"], "C01-INPUT/" + o["rule"][4:]))
     rep.floor("C01-INPUT", nin, 8, "input-reading clauses shared with C19")
+    from rules import c16 as c16r
+    c16r.read_fate_rule(F, rep, "C01-INPUT")          # ... and a failing read ends create with an error, not the input
     if getattr(F, "cfg", "dev") == "dev":
         from rules import c03 as c03v
         c03v.vint_rule(F, rep, "C01-DESC", want=("rt",))       # raw lengths and ids of the descriptors travel through this code
